@@ -354,6 +354,7 @@ type clkOut struct {
 	clocks  []clkLeaf
 	cells   []clkCell
 	cellVia map[string]string
+	reads   map[string][]ssa.Value // per cell: the struct values / pointers its field was selected from on the way
 	unknown []string
 	nodes   int
 }
@@ -361,7 +362,8 @@ type clkOut struct {
 type clkEngine struct {
 	r     *Run
 	ix    *clkIndex
-	scope bool // derivation of a filter's operand: stops at the filter's parameters
+	temp  map[ssa.Value]bool // set by perCall when it accepts: the values that hold (or point to) the temporary struct
+	scope bool               // derivation of a filter's operand: stops at the filter's parameters
 	out   *clkOut
 	seen  map[string]bool
 	work  []clkItem
@@ -373,7 +375,7 @@ func newClkEngine(r *Run) *clkEngine { return &clkEngine{r: r, ix: clkIndexOf(r.
 
 func (e *clkEngine) explore(v ssa.Value, ops string, scope bool) *clkOut {
 	e.scope = scope
-	e.out = &clkOut{cellVia: map[string]string{}}
+	e.out = &clkOut{cellVia: map[string]string{}, reads: map[string][]ssa.Value{}}
 	e.seen = map[string]bool{}
 	e.work = nil
 	e.push(clkItem{v: v, ops: ops, idx: -1, st: clkState{fresh: true}})
@@ -573,7 +575,9 @@ func (e *clkEngine) stepFieldRead(it clkItem, base ssa.Value, f *types.Var, ops 
 		}
 		return
 	}
-	e.cell(it, clkCell{f: f, ops: ops}, "field "+e.fieldName(f))
+	c := clkCell{f: f, ops: ops}
+	e.out.reads[c.key()] = append(e.out.reads[c.key()], base)
+	e.cell(it, c, "field "+e.fieldName(f))
 }
 
 func (e *clkEngine) fieldName(f *types.Var) string {
@@ -1352,6 +1356,7 @@ func (e *clkEngine) perCall(st ssa.Instruction, addr ssa.Value, owner types.Type
 			}
 		}
 	}
+	e.temp = c.seen
 	return ""
 }
 
@@ -1526,6 +1531,26 @@ func noStaleClock(r *Run, filters []clkFilter) {
 	}
 	// the closure of "feeds": every cell is judged on its own stores
 	nStores := 0
+	type accepted struct { // a clock sample that was accepted because the struct it sits in is a temporary of the call
+		leaf clkLeaf
+		temp map[ssa.Value]bool
+		at   string
+	}
+	type examined struct {
+		s         clkStore
+		name, via string
+		reads     map[string][]ssa.Value
+		addr      ssa.Value
+		owner     types.Type
+		cell      int
+	}
+	acceptedIn := map[string][]accepted{}
+	var stores2 []examined
+	type cellSum struct {
+		name, via string
+		n, bad    int
+	}
+	var sums []*cellSum
 	for i := 0; i < len(work); i++ {
 		if i > 400 {
 			r.Fail("no-stale-clock:closure", "-", "undecided: more than 400 cells feed the temporal filters")
@@ -1538,6 +1563,8 @@ func noStaleClock(r *Run, filters []clkFilter) {
 		}
 		stores := e.storesOf(c)
 		bad := 0
+		sum := &cellSum{name: name, via: via, n: len(stores)}
+		sums = append(sums, sum)
 		for _, s := range stores {
 			nStores++
 			out := e.explore(s.val, s.ops, false)
@@ -1561,10 +1588,12 @@ func noStaleClock(r *Run, filters []clkFilter) {
 			case *ssa.MapUpdate:
 				addr = x.Map
 			}
+			stores2 = append(stores2, examined{s: s, name: name, via: via, reads: out.reads, addr: addr, owner: owner, cell: len(sums) - 1})
 			for _, leaf := range out.clocks {
 				why := e.perCall(s.in, addr, owner, leaf)
 				chain := leaf.trail.String()
 				if why == "" {
+					acceptedIn[c.key()] = append(acceptedIn[c.key()], accepted{leaf: leaf, temp: e.temp, at: fnName + " (" + r.Where(s.in) + ")"})
 					r.Pass("per-call-clock:"+name+"@"+fnName, r.Where(s.in), fnName+" stores the clock sample "+chain+" into "+name+" of a struct that does not outlive the call that read the clock (a local that is only read, passed on to readers and returned to the caller that took the sample): the instant compared is a clock read made during that call")
 					continue
 				}
@@ -1578,8 +1607,41 @@ func noStaleClock(r *Run, filters []clkFilter) {
 						name+" is long-lived state of a temporal filter ("+via+"): every later submission is compared with the instant of the store instead of the time of the submission (a certificate that expires after the store is never seen as expired, the window never moves) — the instant compared must be configuration or a clock read made during the call itself")
 			}
 		}
-		if bad == 0 {
-			r.Pass("no-stale-clock:"+name, "-", fmt.Sprintf("%s (%s): none of its %d stores in the module carries a sample of a clock that outlives the call", name, via, len(stores)))
+		sum.bad = bad
+	}
+	// a sample accepted as per-call is still a clock sample wherever it is read back out of the temporary: a store
+	// whose value derives from a read of that cell IN the temporary (the variable itself, a copy, the parameter of a
+	// callee it was handed to) carries the sample on, and is judged like the store that took it
+	for _, x := range stores2 {
+		for _, k := range keysOf(x.reads) {
+			for _, acc := range acceptedIn[k] {
+				hit := false
+				for _, base := range x.reads[k] {
+					if acc.temp[base] {
+						hit = true
+					} else if root := clkRootAlloc(base); root != nil && acc.temp[root] {
+						hit = true
+					}
+				}
+				if !hit {
+					continue
+				}
+				r.Valuations++
+				fnName := FuncName(x.s.in.Parent())
+				why := e.perCall(x.s.in, x.addr, x.owner, acc.leaf)
+				if why == "" {
+					continue
+				}
+				sums[x.cell].bad++
+				r.Fail("no-stale-clock:"+x.name+"@"+fnName, r.Where(x.s.in),
+					fnName+" stores a sample of the clock into "+x.name+" — "+clipStr(r.D.D(x.s.val), 80)+" is read back out of the per-call options that "+acc.at+" filled with "+acc.leaf.trail.String()+
+						" — and the value outlives that call: "+why+". "+x.name+" is long-lived state of a temporal filter ("+x.via+"): every later submission is compared with the instant of the store instead of the time of the submission — the instant compared must be configuration or a clock read made during the call itself")
+			}
+		}
+	}
+	for _, sum := range sums {
+		if sum.bad == 0 {
+			r.Pass("no-stale-clock:"+sum.name, "-", fmt.Sprintf("%s (%s): none of its %d stores in the module carries a sample of a clock that outlives the call", sum.name, sum.via, sum.n))
 		}
 	}
 	r.Floor("stores into the long-lived state of the temporal filters examined", nStores, 1)
